@@ -269,6 +269,19 @@ func checkD1(c *Ctx, pr *prioRoles) {
 				n++
 				key := fmt.Sprintf("%s#divider.%d", p.FnKey(fn), n)
 				var problems []string
+				// who may call the divider: the checking wrapper, and (v1) the functions that
+				// compute the strategic shares into a new map
+				allowed := fn == pr.safeDivideFn
+				if pr.v1 && !allowed {
+					for _, ref := range *call.Referrers() {
+						if _, isSt := fieldStore(ref, "strategic"); isSt && isNilConst(call.Call.Args[2]) {
+							allowed = true
+						}
+					}
+				}
+				if !allowed {
+					problems = append(problems, "the divider is called directly, outside the checking wrapper: a result whose added total differs from the dividend is accepted silently (no ErrDividerBad)")
+				}
 				// D2: list origin
 				for _, o := range p.listOrigins(fn, call.Call.Args[0], 0) {
 					switch {
